@@ -52,8 +52,19 @@ pub(crate) fn apply_config<S: Open>(
     if &new_config == repo.config() {
         Ok(false)
     } else {
+        let old_append_only = repo.config().append_only;
         repo.set_config(new_config.clone());
-        save_config(repo, new_config, *repo.dbe().key())?;
+        if let Err(err) = save_config(repo, new_config, *repo.dbe().key()) {
+            // Saving is not atomic (e.g. hot/cold repositories store two config files), so it is
+            // unknown which config is stored now. Stay on the safe side: if the old or the new
+            // config is append-only, keep treating the repository as append-only.
+            if old_append_only == Some(true) {
+                let mut config = repo.config().clone();
+                config.append_only = Some(true);
+                repo.set_config(config);
+            }
+            return Err(err);
+        }
         Ok(true)
     }
 }
